@@ -181,10 +181,6 @@ def loadRules (rs : List (String × UInt32)) : List (String × Rule) :=
 def pokeRules (rules : List (String × Rule)) (res : String) (idx : Nat) (thr : UInt32) : List (String × Rule) :=
   rules.map fun p => if p.1 = res ∧ p.2.idx = idx then (p.1, { p.2 with thr := thr }) else p
 
-/-- the same edit seen through `currentRules`: only valid rule objects are ever edited -/
-def pokeValid (raw : List (String × Rule)) (res : String) (idx : Nat) (thr : UInt32) : List (String × Rule) :=
-  raw.map fun p => if p.1 = res ∧ p.2.idx = idx ∧ p.2.thr ≠ 0 then (p.1, { p.2 with thr := thr }) else p
-
 def rulesOf (rules : List (String × Rule)) (res : String) : List Rule :=
   (rules.filter fun p => p.1 = res).map (·.2)
 
@@ -193,17 +189,14 @@ def rulesOf (rules : List (String × Rule)) (res : String) : List Rule :=
 def loadResRules (rules : List (String × Rule)) (res : String) (ths : List UInt32) : List (String × Rule) :=
   (rules.filter fun p => p.1 ≠ res) ++ loadRules (ths.map fun t => (res, t))
 
-/-! ### `currentRules` and the caller's slice (as the code has it: known finding `loadres-raw-slice-alias`)
+/-! ### `currentRules` and the caller's slice: the fixed finding `loadres-raw-slice-alias` (repaired by `26e3af6`)
 
-`LoadRulesOfResource` stores the **caller's slice** in `currentRules[res]` (`currentRules[res] = rawResRules`), the list its
-"unchanged" shortcut compares the next load with.  A caller that reuses one slice for successive calls therefore makes the shortcut
-compare the new rules with themselves: a reload of `res` with the same number of rules through the same slice is **ignored**.
-`LoadRules` regroups into fresh slices and is not affected.  The harness' `sloadres` reuses one slice (and overwrites its elements with
-unrelated rules after each call; `sload` uses a slice of its own), so the model tracks
-
-* `raw`   — the content of `currentRules` for the resources whose entry is not the caller's slice (unfiltered, with positions);
-* `ali`   — for the others: the length of the slice header stored (`currentRules[res]` is the first `k` elements of the caller's slice,
-  which hold unrelated rules between calls and the first `k` *new* rules during the next `sloadres`). -/
+Before the repair `LoadRulesOfResource` stored the **caller's slice** in `currentRules[res]`, the list its "unchanged" shortcut compares
+the next load with; a caller reusing one slice for successive calls had a reload of `res` with the same number of rules compared with
+itself and **ignored**.  `rmLoadResOld` keeps that behaviour as documentation (only the witness theorem is about it): `raw` = content of
+`currentRules` for the resources whose entry is not the caller's slice, `ali` = for the others the length of the stored slice header.
+Since the repair every call stores a copy, the shortcut only fires for genuinely equal lists, and the executed model is simply
+`loadResRules` (every `LoadRulesOfResource` call takes effect). -/
 
 def rawRules (rs : List (String × UInt32)) : List (String × Rule) :=
   rs.zipIdx.map fun p => (p.1.1, { idx := p.2, thr := p.1.2 })
@@ -213,10 +206,10 @@ def aliasOf (alias : List (String × Nat)) (res : String) : Option Nat := (alias
 structure RM where
   rules : List (String × Rule)
   raw   : List (String × Rule)
-  ali : List (String × Nat)
+  ali   : List (String × Nat)
 
-/-- `LoadRulesOfResource(res, rules)` as the code has it -/
-def rmLoadRes (m : RM) (scratch : Bool) (res : String) (ths : List UInt32) : RM :=
+/-- `LoadRulesOfResource(res, rules)` as the code had it **before `26e3af6`** (`scratch`: through the caller's one reused slice) -/
+def rmLoadResOld (m : RM) (scratch : Bool) (res : String) (ths : List UInt32) : RM :=
   let store (al : List (String × Nat)) : RM :=
     { rules := loadResRules m.rules res ths,
       raw := (m.raw.filter fun p => p.1 ≠ res) ++ rawRules (ths.map fun t => (res, t)),
@@ -231,18 +224,8 @@ def rmLoadRes (m : RM) (scratch : Bool) (res : String) (ths : List UInt32) : RM 
       if rulesOf m.raw res = (rawRules (ths.map fun t => (res, t))).map (·.2) then m    -- genuinely unchanged: the old slice stays
       else store ((res, ths.length) :: noAlias)
 
-/-- does this `LoadRulesOfResource` call take effect (`false`: the "unchanged" shortcut fires) -/
-def rmStores (m : RM) (scratch : Bool) (res : String) (ths : List UInt32) : Bool :=
-  if ths.isEmpty then true
-  else if !scratch then true
-  else match aliasOf m.ali res with
-    | some k => !(k = ths.length)
-    | none => !(rulesOf m.raw res = (rawRules (ths.map fun t => (res, t))).map (·.2))
-
 structure St where
   rules : List (String × Rule) := []
-  raw   : List (String × Rule) := []        -- `currentRules` (see above)
-  ali : List (String × Nat) := []
   gauge : String → Int := fun _ => 0        -- `ResourceNode.concurrency` (0 for a node not created yet)
   live  : List (Nat × String) := []         -- handles of passed entries not exited yet: (id, resource)
 
@@ -255,12 +238,9 @@ def schedHandles (id0 : Nat) (res : String) (th : List Pc) : List (Nat × String
   (th.zipIdx.filter fun p => p.1 = .inflight).map fun p => (id0 + p.2, res)
 
 def step (s : St) : Op → St × Out
-  | .load rs => ({ s with rules := loadRules rs, raw := rawRules rs, ali := [] }, .none)
-  | .loadres scratch res ths =>
-    let m := rmLoadRes { rules := s.rules, raw := s.raw, ali := s.ali } scratch res ths
-    ({ s with rules := m.rules, raw := m.raw, ali := m.ali }, .none)
-  | .poke res idx thr =>
-    ({ s with rules := pokeRules s.rules res idx thr, raw := pokeValid s.raw res idx thr }, .none)
+  | .load rs => ({ s with rules := loadRules rs }, .none)
+  | .loadres _ res ths => ({ s with rules := loadResRules s.rules res ths }, .none)     -- whatever slice the caller used
+  | .poke res idx thr => ({ s with rules := pokeRules s.rules res idx thr }, .none)
   | .getrules res => (s, .rules (rulesOf s.rules res))
   | .getall => (s, .allrules s.rules)
   | .entry id res b =>
@@ -292,21 +272,15 @@ def run (s : St) : List Op → St × List Out
 
 structure SpecSt where
   rules : List (String × Rule) := []
-  raw   : List (String × Rule) := []
-  ali : List (String × Nat) := []
   ideal : List (String × Rule) := []        -- what the latest loads say (every load takes effect): the claim of the property
   live  : List (Nat × String) := []
 
 def inflight (live : List (Nat × String)) (res : String) : Nat := live.countP (·.2 = res)
 
 def specStep (s : SpecSt) : Op → SpecSt × Out
-  | .load rs => ({ s with rules := loadRules rs, raw := rawRules rs, ali := [], ideal := loadRules rs }, .none)
-  | .loadres scratch res ths =>
-    let m := rmLoadRes { rules := s.rules, raw := s.raw, ali := s.ali } scratch res ths
-    ({ s with rules := m.rules, raw := m.raw, ali := m.ali, ideal := loadResRules s.ideal res ths }, .none)
-  | .poke res idx thr =>
-    ({ s with rules := pokeRules s.rules res idx thr, raw := pokeValid s.raw res idx thr,
-              ideal := pokeRules s.ideal res idx thr }, .none)
+  | .load rs => ({ s with rules := loadRules rs, ideal := loadRules rs }, .none)
+  | .loadres _ res ths => ({ s with rules := loadResRules s.rules res ths, ideal := loadResRules s.ideal res ths }, .none)
+  | .poke res idx thr => ({ s with rules := pokeRules s.rules res idx thr, ideal := pokeRules s.ideal res idx thr }, .none)
   | .getrules res => (s, .rules (rulesOf s.rules res))
   | .getall => (s, .allrules s.rules)
   | .entry id res b =>
@@ -322,14 +296,6 @@ def specStep (s : SpecSt) : Op → SpecSt × Out
     let c := specRunDrain (rulesOf s.rules res) bs { base := n, mx := n, th := List.replicate bs.length .idle } sch
     ({ s with live := schedHandles id0 res c.th ++ s.live }, .sched c.th c.mx)
   | .soak res G _ b => (s, .soak (soakBound (rulesOf s.rules res) (inflight s.live res : Nat) G b))
-
-/-- every `LoadRulesOfResource` call of the history takes effect (evaluated on the reference's own rule-manager state) -/
-def storesAlong (s : SpecSt) : List Op → Bool
-  | [] => true
-  | o :: r =>
-    (match o with
-     | .loadres sc res ths => rmStores { rules := s.rules, raw := s.raw, ali := s.ali } sc res ths
-     | _ => true) && storesAlong (specStep s o).1 r
 
 def specRun (s : SpecSt) : List Op → SpecSt × List Out
   | [] => (s, [])
